@@ -3,7 +3,11 @@ PROP = {
     "technique": "runtime monitor: differential oracle (exact math/big re-evaluation) over the real channelLink decision functions",
     "level_text": ("Every in-domain decision of the real CheckHtlcForward/CheckHtlcTransit on a real channelLink is compared "
                    "with an exact unbounded-integer evaluation of the statement's rules; accept<=>all rules hold and a "
-                   "rejection must name a rule that is really violated. 2e5 (quick) / 2e7 (thorough) boundary-lattice cases."),
+                   "rejection must name a rule that is really violated. 2e5 (quick) / 2e7 (thorough) boundary-lattice cases. "
+                   "Unit concurrent_policy: decisions taken by two goroutines while a third switches the link between two "
+                   "configured policies through UpdateForwardingPolicy (HTLCs each policy rejects for a different rule, so that "
+                   "a decision blending fields of both would accept): an accept must be exact under the old or the new policy, "
+                   "a rejection must name a rule violated under one of them."),
     "level_note": ("Sampled, not exhaustive; domain restriction: |capped inbound rate*(out+fee)| < 2^62 unless in<out "
                    "(beyond it CalcFee's int64 product overflows; counted as out_of_domain). Bandwidth is one fixture channel's."),
     "design_ref": "DESIGN.md §3 C09",
@@ -19,5 +23,11 @@ PROP = {
         "shards": {"quick": 8, "thorough": 16},
         "floors": {"quick": {"decisions": 100000, "accepted": 2000, "rejected": 50000},
                    "thorough": {"decisions": 10000000, "accepted": 200000}},
+    }, {
+        "name": "concurrent_policy", "pkg": "htlcswitch", "test": "TestVerifC09Conc",
+        "files": ["htlcswitch/c09_test.go", "htlcswitch/c09conc_test.go"],
+        "shards": {"quick": 4, "thorough": 16}, "gomaxprocs": 4,
+        "floors": {"quick": {"conc_decisions": 20000, "conc_neither_accepts_cases": 200},
+                   "thorough": {"conc_decisions": 500000, "conc_neither_accepts_cases": 5000}},
     }],
 }
